@@ -178,8 +178,14 @@ let f20b_class = "same_operand_areal_members_overlap"
 
 let bstr b = if b then "1" else "0"
 
+(* concurrent-edges class: the exact arrangement of such a case is expensive (many crossings with large
+   rationals); the first [conc_full] cases of a run get the full exact judgement, the others the light
+   one: no error return, valid results, structural laws, and every check on the real DCEL (invariants,
+   merged vertices, selection, rings) *)
+let conc_seen = ref 0
 let () =
   let path = Sys.argv.(1) in
+  let conc_full = if Array.length Sys.argv > 2 then int_of_string Sys.argv.(2) else 2 in
   let samples = ref 0 in
   iter_lines path (fun line ->
       let f = split_tabs line in
@@ -201,6 +207,8 @@ let () =
         end in
       count ("class_" ^ kind ^ "_" ^ cls);
       let failc k name detail = fail id k name (trunc detail) in
+      let light = cls = "conc" && (incr conc_seen; !conc_seen > conc_full) in
+      count (if cls = "conc" then (if light then "conc_light_judgement" else "conc_full_judgement") else "full_judgement");
       (match unscale_error with Some m -> failc "SPEC" "rescaled_result_not_representable" m | None -> ());
       (try
       let parse_geom (d : string) : q geomT =
@@ -345,7 +353,7 @@ let () =
       let ctx = operands
                 @ List.filter_map (fun (n, _, _, _) -> snapped n) primaries
                 @ List.filter_map (fun (x, _, _) -> snapped x) differing in
-      let ar = arrange ctx in
+      let ar = arrange (if light then [] else ctx) in
       let w = ar_wits ar in
       count "arrangements";
       Hashtbl.replace counters "witnesses" ((try Hashtbl.find counters "witnesses" with Not_found -> 0) + List.length w);
@@ -358,7 +366,7 @@ let () =
           let c = (same_operand_hole_meets_sibling_interior g, same_operand_areal_members_overlap g) in
           class_memo := (g, c) :: !class_memo; c in
       let primary_failed = ref false in
-      List.iter (fun (n, e, x, (o, ga, gb)) ->
+      if not light then List.iter (fun (n, e, x, (o, ga, gb)) ->
           match get n with
           | Some (Good (_, _, rs, _, moved)) ->
             count ("judged_" ^ n);
@@ -403,6 +411,19 @@ let () =
           else begin
             let o = parse_ov dump in
             count "overlays_judged";
+            (* dcel_re_noding.go: nodes that are close to each other are snapped together - no two
+               vertices of the overlay may be closer than 2^-30 x magnitude *)
+            let vf = Array.map (fun sxy -> match String.split_on_char ' ' sxy with
+                | [x; y] -> (Int64.float_of_bits (Int64.of_string ("0x" ^ x)), Int64.float_of_bits (Int64.of_string ("0x" ^ y)))
+                | _ -> (nan, nan)) o.vxy in
+            let tolf = q_to_float tol in
+            let close = ref None in
+            Array.iteri (fun i (x1, y1) -> Array.iteri (fun j (x2, y2) ->
+                if i < j && !close = None && Float.abs (x1 -. x2) <= tolf && Float.abs (y1 -. y2) <= tolf then close := Some (i, j)) vf) vf;
+            (match !close with
+             | Some (i, j) -> failc "SPEC" "dcel_vertices_not_merged"
+                                (Printf.sprintf "overlay=%s vertices %d and %d: (%.17g %.17g) and (%.17g %.17g)" oname i j (fst vf.(i)) (snd vf.(i)) (fst vf.(j)) (snd vf.(j)))
+             | None -> ());
             let parts = [ ("ranges", ranges_ok); ("twin", twin_ok); ("next_prev", next_prev_ok);
                           ("face_cycles", faces_ok); ("euler", euler_ok); ("labels", labels_ok) ] in
             let broken = List.filter (fun (_, f) -> not (f o.cx)) parts in
@@ -464,6 +485,7 @@ let () =
         match get x, get y with
         | Some (Good (dx, _, sx, _, _)), Some (Good (dy, _, sy, _, _)) ->
           if dx = dy then count (if is_dispatch then "dispatch_identical_output" else "law_identical_output")
+          else if light then count "law_not_judged_light"
           else begin
             count (if is_dispatch then "dispatch_judged_by_oracle" else "law_judged_by_oracle");
             let mx = mem_p (prep sx) and my = mem_p (prep sy) in
